@@ -29,4 +29,6 @@ func checkC02(r *Run) {
 	r6 := r.Rule("R-C02-6", "never zero times: every failure of the QoS 2 exchange after its waiter was registered carries a retry handle, and the error wrappers keep it for every cause but nil and io.EOF")
 	c.ruleRetryableFailures(r6, st2)
 	c.ruleWrapKeepsHandle(r6)
+	r7 := r.Rule("R-C02-7", "never zero times: a failed (e.g. timed-out) publish leaves the retrying client's request closure only with its retry handle queued — unless the caller's own context was cancelled (R-C01-4, publish only)")
+	c.ruleFailedKeptFor(r7, "publish")
 }
